@@ -236,6 +236,11 @@ func propC13Steps(ch core.Chooser, st *core.Stats) error {
 		case "yield":
 			w.note("actor %d (%s) -> before %s", a.id, a.state, ev.point)
 			if a.state == "opening" {
+				if ev.point == "create" {
+					// a new iteration of the acquisition loop: the flags describe the file
+					// the opener ends up holding, not what it did in earlier iterations
+					a.created, a.sawOpen = false, false
+				}
 				if ev.point == "open" {
 					a.sawOpen = true
 				}
